@@ -4,7 +4,7 @@
    theorem holds for every number of threads, every program and every schedule, with no bound.
    Model/Lin.v is an executable checker for real histories; it is proved sound. *)
 From Coq Require Import List NArith ZArith Bool Permutation.
-From Feox Require Import Model.Sched Model.Lin Proofs.SchedProofs Proofs.LinProofs.
+From Feox Require Import Model.Sched Model.Lin Proofs.SchedProofs Proofs.SchedJustify Proofs.LinProofs.
 Import ListNotations.
 Local Open Scope N_scope.
 
@@ -90,7 +90,9 @@ Theorem one_insert_if_absent_wins :
   (length (filter (ifabsent_win k) log) + (match st0 k with Some _ => 1 | None => 0 end) <= 1)%nat /\
   (length (filter (ifabsent_win k) log) = 1%nat \/ st0 k <> None -> st k <> None)
 
-(* the history checker used on real executions is sound *).
+(* the first permitted deviation is always justified: a write refused as older although the spec
+   would have accepted it is preceded, in the commit log, by an accepted delete of the same key
+   with an equal or newer timestamp (so that delete was invoked before the rejection) *).
 Proof. exact one_winner_insert_if_absent. Qed.
 Check one_insert_if_absent_wins :
   forall k st0 log st,
@@ -98,8 +100,25 @@ Check one_insert_if_absent_wins :
   (length (filter (ifabsent_win k) log) + (match st0 k with Some _ => 1 | None => 0 end) <= 1)%nat /\
   (length (filter (ifabsent_win k) log) = 1%nat \/ st0 k <> None -> st k <> None)
 
-(* the history checker used on real executions is sound *).
+(* the first permitted deviation is always justified: a write refused as older although the spec
+   would have accepted it is preceded, in the commit log, by an accepted delete of the same key
+   with an equal or newer timestamp (so that delete was invoked before the rejection) *).
 Print Assumptions one_insert_if_absent_wins.
+
+Theorem older_refusal_is_justified :
+  forall shards progs sched fuel,
+  Forall (Forall explicit_pos) progs ->
+  justified_log (w_log (finish fuel (run (init_world shards progs) sched)))
+
+(* the history checker used on real executions is sound *).
+Proof. exact older_refusals_are_justified. Qed.
+Check older_refusal_is_justified :
+  forall shards progs sched fuel,
+  Forall (Forall explicit_pos) progs ->
+  justified_log (w_log (finish fuel (run (init_world shards progs) sched)))
+
+(* the history checker used on real executions is sound *).
+Print Assumptions older_refusal_is_justified.
 
 Theorem history_checker_sound :
   forall h, lin_check h = true ->
